@@ -22,6 +22,7 @@ type thread struct {
 	blocked bool
 	waitOn  string
 	top     *frame // innermost interpreted frame (diagnostics only)
+	settling bool  // inside vSettle: not a preemption target
 }
 
 type vtimer struct {
@@ -226,9 +227,12 @@ func (s *scheduler) yield() {
 
 // settle runs the other threads until none of them is runnable.
 func (s *scheduler) settle() {
+	me := s.cur
+	me.settling = true
 	for len(s.runq) > 0 {
 		s.yield()
 	}
+	me.settling = false
 }
 
 // schedPoint is called at synchronisation operations. With preemption budget
@@ -242,15 +246,29 @@ func (s *scheduler) schedPoint(what string) {
 	if s.points > s.i.path.exp.cfg.MaxSchedPoints {
 		return
 	}
-	n := len(s.runq)
+	// candidates: runnable threads that are not waiting in vSettle
+	var cand []int
+	for idx, t := range s.runq {
+		if !t.settling {
+			cand = append(cand, idx)
+		}
+	}
+	n := len(cand)
+	if max := s.i.path.exp.cfg.MaxPreemptTargets; max > 0 && n > max {
+		n = max
+	}
+	if n == 0 {
+		return
+	}
 	k := s.i.path.choose(n+1, "sched")
 	if k == 0 {
 		return
 	}
 	s.preempt--
 	me := s.cur
-	next := s.runq[k-1]
-	s.runq = append(s.runq[:k-1], s.runq[k:]...)
+	ri := cand[k-1]
+	next := s.runq[ri]
+	s.runq = append(s.runq[:ri], s.runq[ri+1:]...)
 	s.runq = append(s.runq, me)
 	where := ""
 	if me.top != nil {
